@@ -1,12 +1,18 @@
 """C03 — the control-flow graph matches the program's real control flow (static part;
-the dynamic edge monitor runs with the machine in C01's check)."""
+static judge Trace_Cfg + dynamic edge monitor on the reference machine)."""
 from props.cfgcommon import *
+import props.execcommon as ex
 
 PID = "C03"
 
 
 def run(tier, replay=None):
     out, stats, ngen = run_flow(PID, tier, replay, "C03:")
+    # dynamic part: edge monitor on the reference machine (shared run with C01/C02)
+    res = ex.exec_verdicts(tier, json.load(open(replay))["witness"]["text"] if replay else None)
+    dstats = ex.fill(out, res, "C03:dynamic")
+    stats["executions"] = dstats["executions"]
+    stats["machine_stop_reasons"] = dstats["stop_reasons"]
     out.assumptions += [
         "domain: no indirect jumps other than ret, no jal with a link register other than ra/x0, no reachable path running off the end of the file",
         "exit ecalls are recognised from the analyzer's own a7 facts (their truth is C01's business)",
